@@ -20,7 +20,7 @@ Block ids: BlockIdExt.from_bytes(to_bytes(x)) == x, from_dict(to_dict(x)) == x, 
 
 Deliberately NOT asserted
   * anything about the byte layout of BlockIdExt.to_bytes (the example documents it as big-endian, not TL);
-  * serialize(..., boxed=False) / deserialize(..., boxed=False, args=...) entry points;
+  * the deserialize(..., boxed=False, args=...) entry point;
   * int128/int256 passed as bytes or int (only the hex-string form the parser itself returns is used);
   * opaque `bytes`/`string` contents that start with a known constructor id (documented auto-deserialisation turns them
     into objects; generated opaque data never starts with one), and nested objects inside the two documented
@@ -335,6 +335,24 @@ def check_ctor(case):
                 fails.append(Fail('serialize/string-field-dropped', det))
             else:
                 fails.append(Fail(f'serialize/differs-at/{kind}', det))
+
+    # (a') the other ways to name the same constructor give the same bytes: its name as a string, its id (big-endian bytes,
+    # little-endian bytes, int); without the id prefix (boxed=False) the bytes are the same minus the 4 id bytes
+    if sch is not None and not fails:
+        ok, out2 = call(schemas.serialize, name, lib)
+        if not ok or bytes(out2) != exp:
+            fails.append(Fail('serialize/by-name-string-differs', f'{name}: {out2!r}'[:300]))
+        ok, out3 = call(schemas.serialize, sch, lib, False)
+        if not ok or bytes(out3) != exp[4:]:
+            fails.append(Fail('serialize/boxed-false-differs', f'{name}: {out3!r}'[:300]))
+        be = exp[:4][::-1]
+        for how, f_ in (('bytes-big', lambda: schemas.get_by_id(be)), ('bytes-little', lambda: schemas.get_by_id(exp[:4], 'little')),
+                        ('int-big', lambda: schemas.get_by_id(int.from_bytes(be, 'big'))),
+                        ('int-little', lambda: schemas.get_by_id(int.from_bytes(be, 'little'), 'little'))):
+            ok, got = call(f_)
+            if not ok or got is None or getattr(got, 'name', None) != sch.name:
+                fails.append(Fail(f'schema/get_by_id-{how}-finds-another-constructor', f'{name}: {got!r}'[:300]))
+                break
 
     # (b) parsing the TL encoding gives the value back and consumes everything
     try:
